@@ -110,3 +110,44 @@ def cover_avg(c, name, threads, judge_fn, max_paths=None):
     return graph.replay_cover(c, name, "MC_IncAvg", graph.tla_script(threads, fmt), mc, sc, "Trace_IncAvg", tc,
                               invariants=["InvCount", "InvNoLostUpdate", "InvProbePair"], step_expr="(Step(p) /\\ UNCHANGED opi)",
                               ret_pred='pc[p] \\in {"ret", "pret"}', judge_fn=judge_fn, max_paths=max_paths)
+
+
+def unichan_fmt(o):
+    n = o["op"]
+    if n == "send":
+        return "S(%d)" % o["v"]
+    if n == "drive":
+        return "Dv(%d, %d)" % (o["s"], o.get("max", 9))
+    if n == "cancel_all":
+        return "X"
+    raise ToolError("unichan_fmt: no TLA+ form for op %s" % n)
+
+
+def cover_unichan(c, name, threads, l1_checks, n=4, maxs=1, max_paths=None,
+                  invariants=("InvLinearizable", "InvBounds", "InvChanTypes", "InvWakersLock", "InvNoLoss", "InvCancelEnds")):
+    """the movable atomic Uni channel: every transition of the UniChan state graph (ring + wake / waker-registration / cancel protocol + the
+       executor task) is replayed into the real channel; each replay is validated operation by operation against UniChan (L2) and judged by
+       the L1 specification Trace_AbsUni with the verdicts of the calling property"""
+    from .chan import cscn, uni_consts, judge_chan
+    kf = kf_open(KF_SPURIOUS_EMPTY) is not None
+    procs = list(range(len(threads)))
+    mc = {"N": n, "W": 4 * n, "Procs": procs, "Origins": [0], "OverflowChecks": True, "RelaxEmpty": kf, "Prefill": False, "Mode": '"fifo"', "MaxS": maxs}
+    tc = {"N": n, "W": 64, "Procs": procs, "Origins": [0], "OverflowChecks": True, "RelaxEmpty": kf, "Prefill": False, "Mode": '"fifo"', "MaxS": maxs}
+    sc = cscn(name, "uni_move_atomic", n, maxs, threads, None, pre_streams=maxs, payload="u64")
+    sc["record_ops"] = True
+
+    def jf(scns, nm, trace, runs, v):
+        for x in v["violations"]:
+            s2 = dict([q for q in scns if q["id"] == x["run"]["scn"]][0])
+            s2["explore"] = {"mode": "replay", "schedules": [x["run"]["choices"]]}
+            c.violation("%s (UniChan) violated by the real code (scenario %s, run %d)" % (x["inv"], x["run"]["scn"], x["run"]["run"]),
+                        {"scenario": s2, "run": x["run"], "events": extract_run(trace, x["run"]), "module": "Trace_UniChan", "consts": {k: tla_val(q) for k, q in tc.items()}, "invariant": x["inv"]})
+        l1c = uni_consts(n, len(threads), "uni_move_atomic", l1_checks, relax=kf)
+        v1 = validate_trace(trace, runs, "Trace_AbsUni", l1c, "%s_%s_l1" % (c.prop, nm), parallel=8)
+        c.tv_states += v1["states"]
+        for e in v1["errors"]:
+            c.tool_errors.append("L1 validation of %s: %s" % (nm, e))
+        log("[conf] %-22s %-20s runs %6d (L1 verdicts of the replayed cover) ok %6d mismatch %3d l1-viol %3d" % (nm, "Trace_AbsUni", len(runs), v1["runs_ok"], len(v1["mismatches"]), len(v1["violations"])))
+        judge_chan(c, scns, nm, trace, runs, v1, "Trace_AbsUni", l1c)
+    return graph.replay_cover(c, name, "MC_UniChan", graph.tla_script(threads, unichan_fmt), mc, sc, "Trace_UniChan", tc, invariants=list(invariants),
+                              step_expr=None, judge_fn=jf, max_paths=max_paths)
